@@ -3,10 +3,11 @@ import copy
 import gc
 import hashlib
 import json
+import os
 import sys
 
 from . import boot
-from .core import Violation, ddmin, digest_obj
+from .core import HarnessError, Violation, ddmin, digest_obj
 from .gen import GenState, gen_event
 from .world import CodeRaised, World, state_hash
 
@@ -164,14 +165,81 @@ def same_class(v, prop, inv):
     return v is not None and v.prop == prop and v.inv == inv
 
 
-def minimise(mode, cfg, events, prop, inv, budget=1500, wall=240.0):
+def in_child(fn, *args, timeout=900):
+    """Run fn(*args) in a forked child of this process and return its (picklable) result.
+    The child inherits this interpreter as it is now and whatever it leaves behind in
+    module or class state dies with it: an execution cannot influence the next one."""
+    import pickle
+    import select
+
+    rd, wr = os.pipe()
+    pid = os.fork()
+    if pid == 0:
+        code = 0
+        try:
+            os.close(rd)
+            try:
+                data = pickle.dumps(("ok", fn(*args)))
+            except BaseException as e:  # noqa: BLE001
+                import traceback
+
+                data = pickle.dumps(("err", "".join(traceback.format_exception(e))[-3000:]))
+            with os.fdopen(wr, "wb") as f:
+                f.write(data)
+        except BaseException:  # noqa: BLE001
+            code = 3
+        finally:
+            os._exit(code)
+    os.close(wr)
+    chunks = []
+    import time as _time
+
+    end = _time.time() + timeout
+    with os.fdopen(rd, "rb") as f:
+        while True:
+            left = end - _time.time()
+            if left <= 0 or not select.select([f], [], [], left)[0]:
+                os.kill(pid, 9)
+                os.waitpid(pid, 0)
+                raise HarnessError(f"forked execution exceeded {timeout}s")
+            b = os.read(f.fileno(), 1 << 16)
+            if not b:
+                break
+            chunks.append(b)
+    os.waitpid(pid, 0)
+    if not chunks:
+        raise HarnessError("forked execution died without a result")
+    kind, val = pickle.loads(b"".join(chunks))
+    if kind == "err":
+        raise HarnessError("forked execution failed: " + val)
+    return val
+
+
+def _execute_plain(mode, cfg, events):
+    v, idx = execute(mode, cfg, events)
+    return (None if v is None else (v.prop, v.inv, str(v.detail)[:2000])), idx
+
+
+def execute_hermetic(mode, cfg, events):
+    """execute() in a forked child: same result, nothing carried over."""
+    t, idx = in_child(_execute_plain, mode, cfg, events, timeout=300)
+    if t is None:
+        return None, idx
+    v = Violation(t[0], t[1], t[2])
+    return v, idx
+
+
+def minimise(mode, cfg, events, prop, inv, budget=1500, wall=240.0, hermetic=False):
     """ddmin over the event list, then argument shrinking, keeping the violation class.
     Bounded by a number of replays and by wall time: whatever has been reached by then is
-    reported (it still reproduces; it is just less small)."""
+    reported (it still reproduces; it is just less small). hermetic=True executes every
+    candidate in its own forked child (slower; immune to state that the tree under test
+    keeps at module or class level)."""
     import time as _time
 
     tests = [0]
     t0 = _time.time()
+    execute = execute_hermetic if hermetic else globals()["execute"]
 
     def fails(evs, c=None):
         if tests[0] > 0 and (_time.time() - t0 > wall or tests[0] > budget * 2):
